@@ -23,6 +23,7 @@ func init() {
 			ruleC04R5(r)
 			ruleResumeRestoresConnected(r, "R6", "Downstream")
 			ruleC04R8(r)
+			r.borrow("C03", func() { ruleC03R2(r) }) // one alias generator for pre-registered and new aliases
 			ruleLoopDrivers(r, "R7", "the ack flusher stays periodic: in package iscp every receive inside a loop from a time source is a Ticker, a time.After, or a Timer that is re-armed inside the loop when its branch continues the loop", func(fn *ssa.Function) bool { return fnPkgPath(fn) == modPath+"/iscp" }, 1)
 		},
 	})
